@@ -114,8 +114,7 @@ def plit_value(p):
     return UNK
 
 
-TRANSPARENT0 = {"clone", "to_string", "to_owned", "as_str", "as_ref", "deref", "deref_mut", "borrow", "into", "as_mut", "as_slice",
-                "to_lowercase_keep"}
+TRANSPARENT0 = {"clone", "to_string", "to_owned", "as_str", "as_ref", "deref", "deref_mut", "borrow", "into", "as_mut", "as_slice"}
 
 
 class PE:
